@@ -321,7 +321,7 @@ def analyse(run, sites, tag):
             pend.pop(j)
         xo = [p[3] for p in order if p[3] is not None]
         so = [c[2] for c in sorted(callouts.get(obj, []))]
-        if xo != so:
+        if xo[:len(so)] != so:      # items that never ran are reported as stranded, not as an order violation
             k = next((i for i in range(min(len(xo), len(so))) if xo[i] != so[i]), min(len(xo), len(so)))
             fails.append({"key": "C03:hlane:fifo", "what": "lane %d: callouts began in order %s..., tail-exchange order is %s... (first difference at position %d)" % (
                 obj, so[max(0, k - 2):k + 3], xo[max(0, k - 2):k + 3], k), "round": run.lanes[obj]["round"]})
@@ -351,8 +351,8 @@ def coq_judge(name, cases):
 
 
 def plan(ctx):
-    seeds = [ctx.seed * 100 + i for i in range(3 if ctx.tier == "quick" else 9)]
-    return [(sd, 8 if ctx.tier == "quick" else 12, [0, 200, 400][i % 3], 1 if ctx.tier == "quick" else 2) for i, sd in enumerate(seeds)]
+    seeds = [ctx.seed * 100 + i for i in range(6 if ctx.tier == "quick" else 30)]
+    return [(sd, 8 if ctx.tier == "quick" else 12, [0, 200, 400][i % 3], 1 if ctx.tier == "quick" else 1 + i % 3) for i, sd in enumerate(seeds)]
 
 
 def run_one(exe, seed, rounds, pm, scale):
